@@ -61,6 +61,10 @@ CHECKS = {
             "Determinism: the real compiler is run twice per shape under opposite iteration orders of every map it ranges over and SMT decides term-wise equality of the instruction lists for all values. Side effects and races: a write monitor over everything reachable from the caller's policy (spare capacity, slices shared with a twin) and over all package state must stay empty on every path of Assemble, GetInfo and the text conversions; with private write sets the DRF argument gives race freedom and independence for any number of goroutines - interleavings are reduced away, not explored. Text forms of symbolic flag/action words are equal under both map orders.",
             "Trusted: the engine's write monitor and map-order model; the DRF reduction (Go memory model). Native replay runs the compilations concurrently under the race detector.",
             "SMT-based symbolic execution with map order as an input plus a write-set (non-interference) analysis (z3 + cvc5)"),
+    "C14": (MC, "4 (C14)",
+            "Parsers/printers: the real Action.Unpack, Operation.Unpack, String and MarshalText are executed symbolically on an arbitrary string (equality atom; case through an uninterpreted lower()) under both iteration orders of the name map; SMT decides 'Unpack succeeds with a iff lower(s) is a's documented name' for ALL strings (so no unknown spelling maps to any action, in particular not to allow), round trips for all named values, and that unknown values print no documented name. Text forms: only key agreement is decided - config, yaml and json tag of every exported field of the four policy structs (read from go/types of the current source) must coincide; a disagreement is confirmed by a native marshal/load round trip.",
+            "NOT decided: the behaviour of go-ucfg, yaml.v2, encoding/json (reflection): quoting, defaults, numeric fidelity of 64-bit operands (JSON path rounds above 2^53 - observed, outside the claim). Assumes the libraries' tag contract.",
+            "SMT-based symbolic execution of the parsers over all strings (equality atoms + uninterpreted lower(), z3 + cvc5); struct-tag agreement from go/types"),
 }
 
 NOT_BUILT = "check not built yet (work in progress)"
